@@ -17,6 +17,11 @@ MINT = chain("mint", 48, 480, ops=60, tops=120)
 # the real DelayUnbonding / PayFromUnbondings / staking end-blocker completion against Model/UbdQueue.lean on states reached by shield
 # and staking histories, after undelegations through the real keeper onto a small grid of completion times (C09, C04)
 UBDQ = chain("ubdqueue", 64, 640, ops=80, tops=160)
+# the real CreateReimbursement against Shield.createReimbursement on books brought to a chosen utilisation of the collateral (exactly full,
+# one unit below, above, anywhere) by real keeper calls in a discarded cache context, on states reached by shield histories and on chains
+# without any shield history (C04, C02, C03, C08)
+REIMB = chain("reimburse", 64, 640, ops=60, tops=120)
+REIMB_ASSUME = "the payout of an approved claim at chosen utilisations (engine 'reimburse'): providers, pools, purchases, the claim's lock (SecureCollaterals as the submission does) and queued withdrawals are made with the real keepers in a discarded cache context, the pool parameters there allow one pool to carry all the shield and purchases of one unit; the monitor approved_claim_is_paid_in_full judges a call only when the books cover the loss (total shield + claimed + withdrawing <= total collateral) and every provider's collateral is backed by its bonded and unbonding stake"
 UBDQ_ASSUME = "the unbonding queue (Props/C09q): DelayUnbonding, PayFromUnbondings and the end-blocker's completion are modelled in Model/UbdQueue.lean on the pair of stores (unbonding delegations, completion queue); creation height and initial balance of an entry, the maximum number of entries per pair and the coins of the not-bonded pool are left out; the engine 'ubdqueue' calls the real functions in a discarded cache context on populations built by the real Undelegate at chosen block times"
 MINT_ASSUME = "the size of the block provision (the SDK minter's inflation and annual provisions) is an input of the mint model; the monitor supply_grows_by_the_provision restates BlockProvision = annual provisions / blocks per year on the observation"
 
@@ -49,24 +54,25 @@ SHIELD = {"engines": [chain("shield", 128, 1280, ops=160, tops=240), EXPORT],
                           "only the bond denomination is used for shield, fees and losses", "genesis LastUpdateTime is the chain's start time (DefaultGenesisState stamps the wall clock)"]}
 
 PROPS = {
-    "C02": dict(SHIELD, lean=["Shentu.Props.C02", "Shentu.Props.C04b", "Shentu.Props.C01m", "Shentu.Props.ShieldTie"], engines=SHIELD["engines"] + [chain("payout", 64, 640, ops=120, tops=200), MINT],
-                assumptions=SHIELD["assumptions"] + [MINT_ASSUME]),
-    "C03": dict(SHIELD, lean=["Shentu.Props.C03a", "Shentu.Props.C03b", "Shentu.Props.ShieldTie"]),
-    "C04": dict(SHIELD, lean=["Shentu.Props.C04", "Shentu.Props.C04b", "Shentu.Props.C04c", "Shentu.Props.C09q", "Shentu.Props.ShieldTie"],
-                engines=SHIELD["engines"] + [chain("payout", 64, 640, ops=120, tops=200), UBDQ],
-                assumptions=SHIELD["assumptions"] + [UBDQ_ASSUME,
+    "C02": dict(SHIELD, lean=["Shentu.Props.C02", "Shentu.Props.C04b", "Shentu.Props.C01m", "Shentu.Props.ShieldTie"], engines=SHIELD["engines"] + [chain("payout", 64, 640, ops=120, tops=200), MINT, REIMB],
+                assumptions=SHIELD["assumptions"] + [MINT_ASSUME, REIMB_ASSUME]),
+    "C03": dict(SHIELD, lean=["Shentu.Props.C03a", "Shentu.Props.C03b", "Shentu.Props.ShieldTie"], engines=SHIELD["engines"] + [REIMB],
+                assumptions=SHIELD["assumptions"] + [REIMB_ASSUME]),
+    "C04": dict(SHIELD, lean=["Shentu.Props.C04", "Shentu.Props.C04b", "Shentu.Props.C04c", "Shentu.Props.C04r", "Shentu.Props.C09q", "Shentu.Props.ShieldTie"],
+                engines=SHIELD["engines"] + [chain("payout", 64, 640, ops=120, tops=200), UBDQ, REIMB],
+                assumptions=SHIELD["assumptions"] + [UBDQ_ASSUME, REIMB_ASSUME,
         "'taken from its bonded or unbonding stake': in the shield model the coins move from the staking pools in one step; how the code takes them (split, pro-rata loop, shares rounded up, unbonding entries) is Model/Payout.lean, run against the real keeper's MakePayoutByProviderDelegations by the engine 'payout' on states reached by shield histories, after random slashes and undelegations in a discarded cache context"]),
     "C05": dict(SHIELD, lean=["Shentu.Props.C05", "Shentu.Props.ShieldTie"]),
     "C06": dict(SHIELD, lean=["Shentu.Props.C06", "Shentu.Props.ShieldTie"], assumptions=SHIELD["assumptions"] + [
         "the converse (a funded purchase meeting the conditions is accepted) is proved for purchases whose fee or stake does not truncate to zero (amount x rate >= 1 unit); with the default minimum purchase of 50 CTK this always holds; below it the module answers ErrNoShield"]),
     "C07": dict(SHIELD, lean=["Shentu.Props.C07", "Shentu.Props.ShieldTie"]),
     "C08": {
-        "lean": ["Shentu.Props.C08", "Shentu.Props.C04b", "Shentu.Props.C04c", "Shentu.Props.C01m"],
-        "engines": [chain("shield", 96, 960, ops=240, tops=400), chain("oracle", 48, 480, ops=120), chain("gov", 48, 480, ops=120), chain("staking", 32, 320, ops=150), chain("bankvm", 32, 320, ops=100), MINT],
+        "lean": ["Shentu.Props.C08", "Shentu.Props.C04b", "Shentu.Props.C04c", "Shentu.Props.C04r", "Shentu.Props.C01m"],
+        "engines": [chain("shield", 96, 960, ops=240, tops=400), chain("oracle", 48, 480, ops=120), chain("gov", 48, 480, ops=120), chain("staking", 32, 320, ops=150), chain("bankvm", 32, 320, ops=100), MINT, REIMB],
         "trusted": SDK_TRUST + ["a panic inside BeginBlock/EndBlock of the real application is caught by the harness (recover) and reported with its site; the begin/end-blockers of SDK modules (distribution, mint, slashing, staking) run for real in every history but are not modelled",
                                 "in the models a Go panic is the error value built by `panicE`; the theorems show that the modelled block-level functions return no error on states satisfying invariants that are proved to be preserved by every operation"],
         "assumptions": ["oracle parameters epsilon1, epsilon2 > 0 (a zero epsilon divides by zero for a score of 0 or 100; parameter validation does not exclude it)", "shield protection period > 0 (validated by the module)",
-                        "claim payouts, at the staking level: the payout function panics ('exact pay out was not made from unbondings') exactly when the provider's bonded and unbonding stake does not cover purchased + payout, and otherwise succeeds (C04b.makePayout_exact, makePayout_uncovered_panics)", "claim payouts: totality of the payout is proved under a feasibility condition on the provider snapshot that is not an invariant (collateral can leave while a claim is open when blocks are far apart); since the repair a47d31f a payout that panics fails the proposal instead of halting the chain, which is what the histories exercise",
+                        "claim payouts, at the staking level: the payout function panics ('exact pay out was not made from unbondings') exactly when the provider's bonded and unbonding stake does not cover purchased + payout, and otherwise succeeds (C04b.makePayout_exact, makePayout_uncovered_panics)", "claim payouts: the split of the loss over the providers pays in full (C04r.split_pays_in_full_with_two_spare_units) when every provider's share of the unused collateral is at least two units; it can fall short otherwise (C04r.split_short_at_full_utilisation, recorded under C04: the handler runs under recover, the proposal fails, the chain goes on)", "claim payouts: totality of the payout is proved under a feasibility condition on the provider snapshot that is not an invariant (collateral can leave while a claim is open when blocks are far apart); since the repair a47d31f a payout that panics fails the proposal instead of halting the chain, which is what the histories exercise",
                         "block-time gaps up to ten protection periods, parameters as drawn by the profile generators",
                         "mint: the split of the block provision cannot fail when the two ratios (community pool / supply, stake-for-shield pool / supply) are non-negative and add up to at most one (C01m.split_ok_of_ratios, and split_panics_iff for the converse); both pools are coins held inside the supply, in different module accounts"],
     },
